@@ -54,7 +54,7 @@ def sub_exprs(e):
     k = e[0]
     if k in ('const', 'var', 'raise', 'instance', 'global', 'unsupported'):
         return []
-    if k in ('readI', 'readV', 'neg', 'pos', 'not', 'attrFail'):
+    if k in ('readI', 'readV', 'neg', 'pos', 'not', 'attrFail', 'loadedForm'):
         return [e[1]]
     if k in ('fstr', 'notImpl', 'tuple', 'list'):
         return list(e[1])
@@ -117,8 +117,12 @@ def stmts_exprs(block):
         elif k == 'forS':
             yield s[2]
             yield from stmts_exprs(s[3])
-        elif k in ('ret', 'expr', 'assertS'):
+        elif k in ('ret', 'expr'):
             yield s[1]
+        elif k == 'assertS':
+            yield s[1]
+            if len(s) > 2:
+                yield s[2]
 
 
 def all_nodes(e):
@@ -244,6 +248,8 @@ class Walker:
             elif k in ('ret', 'expr', 'assertS'):
                 self.expr(s[1], guards, assigns)
                 if k == 'assertS':
+                    if len(s) > 2:
+                        self.expr(s[2], guards + [(s[1], False)], assigns)
                     guards = guards + [(s[1], True)]
             elif k == 'ifS':
                 self.expr(s[1], guards, assigns)
